@@ -6,7 +6,7 @@ NAME="$1"; M="$2"; DEMO="$3"; DEST="$4"; RUN="$5"; shift 5
 export GOFLAGS=-mod=mod GOPROXY=off GOSUMDB=off GOTOOLCHAIN=local
 W=/tmp/confirm/$NAME; rm -rf "$W"; mkdir -p /tmp/confirm /tmp/confirm/scratch
 git -C /repo worktree add --detach "$W" HEAD >/dev/null 2>&1 || { echo "$NAME: worktree failed"; exit 9; }
-cd "$W"; mkdir -p "$DEST"; cp "$M/$DEMO" "$DEST/"
+cd "$W"; mkdir -p "$DEST"; if [ "$DEMO" = ALL ]; then cp "$M"/*_test.go "$DEST/"; else cp "$M/$DEMO" "$DEST/"; fi
 run_demo() { env TMPDIR=/tmp/confirm/scratch C14_SCRATCH=/tmp/confirm/scratch C13_DEMO_DIR=/tmp/confirm/scratch "$@" timeout 900 go test -vet=off -count=1 -timeout 800s -run "$RUN" "./$DEST/" > "$W/demo.$PHASE.log" 2>&1; }
 PHASE=clean; go build ./... > build.clean.log 2>&1; bc=$?; run_demo "$@"; dc=$?
 if ! git apply "$M/patch.diff" 2>apply.log; then echo "$NAME: PATCH-DOES-NOT-APPLY"; cat apply.log | head -3; cd /; git -C /repo worktree remove --force "$W"; exit 8; fi
@@ -14,7 +14,7 @@ PHASE=patched; go build ./... > build.patched.log 2>&1; bp=$?
 go test -vet=off -count=1 ./util/... > util.patched.log 2>&1; up=$?
 run_demo "$@"; dp=$?
 echo "$NAME: clean build=$bc demo=$dc | patched build=$bp util=$up demo=$dp"
-mkdir -p /verif/seeded/$NAME; cp "$M/patch.diff" "$M/$DEMO" /verif/seeded/$NAME/; [ -f "$M/README.md" ] && cp "$M/README.md" /verif/seeded/$NAME/AUTHOR_README.md
+mkdir -p /verif/seeded/$NAME; cp "$M/patch.diff" /verif/seeded/$NAME/; if [ "$DEMO" = ALL ]; then cp "$M"/*_test.go /verif/seeded/$NAME/; else cp "$M/$DEMO" /verif/seeded/$NAME/; fi; [ -f "$M/README.md" ] && cp "$M/README.md" /verif/seeded/$NAME/AUTHOR_README.md
 printf '{"clean_build_rc":%s,"clean_demo_rc":%s,"patched_build_rc":%s,"patched_util_tests_rc":%s,"patched_demo_rc":%s,"demo_cmd":"cp %s %s/ && go test -vet=off -count=1 -run %s ./%s/","base_commit":"%s"}\n' $bc $dc $bp $up $dp "$DEMO" "$DEST" "$RUN" "$DEST" "$(git -C /repo rev-parse --short HEAD)" > /verif/seeded/$NAME/confirm.json
 tail -3 "$W/demo.patched.log" | cut -c1-200 > /verif/seeded/$NAME/demo_patched_tail.txt
 cd /; git -C /repo worktree remove --force "$W"; rm -rf /tmp/confirm/scratch/*
